@@ -164,12 +164,14 @@ impl Move {
                 s
             }
             Self::Promotion {
+                start,
                 end,
                 captured_piece,
                 new_piece,
                 ..
             } => {
                 let mut s = String::new();
+                s.push(((start.col()) as u8 + b'a') as char);
                 if captured_piece.is_some() {
                     s.push('x');
                 }
